@@ -5,12 +5,10 @@ package main
 import (
 	"fmt"
 	"go/constant"
-	"go/token"
 	"go/types"
 	"regexp"
 	"strings"
 
-	"golang.org/x/tools/go/ssa"
 )
 
 const (
@@ -202,72 +200,15 @@ func ruleDistributeOnce(w *World, r *Run) {
 
 // ---------------------------------------------------------------- C16
 
+const (
+	cMuxHandleFunc = "(*github.com/gorilla/mux.Router).HandleFunc"
+	cMuxHandle     = "(*github.com/gorilla/mux.Router).Handle"
+)
+
 func ruleReadAPI(w *World, r *Run) {
-	// ---- C16.a HANDLER-VERBATIM
-	if sums, _, ok := exploreOpaque(w, r, "C16.a", fnHGetCP, 4, 1, fnGetCheckpoint, fnGetLogs, fnHForCode); ok {
-		fn := w.fn(fnHGetCP)
-		srv := recvParam(fn)
-		rw, req := paramN(fn, 0), paramN(fn, 1)
-		nOK := 0
-		for _, s := range sums {
-			gc := calls(s, fnGetCheckpoint)
-			if len(gc) != 1 || gc[0].Recv != fieldByType(srv, "*witness.Witness") {
-				r.Fail("C16.a", fnHGetCP+" | reads through the witness", w.pos(s.RetPos), "handler does not call Witness.GetCheckpoint exactly once")
-				continue
-			}
-			// log ID comes from the route variable "logid" of this request
-			id := gc[0].Args[0]
-			idOK := id.Kind == "lookup" && id.Args[0].Kind == "call" && id.Args[0].Name == "github.com/gorilla/mux.Vars" && id.Args[0].Args[2] == req && id.Args[1].Kind == "const" && id.Args[1].Name == "\"logid\""
-			r.Check(idOK, "C16.a", fnHGetCP+" | log ID = route variable of this request", w.pos(gc[0].Pos), "GetCheckpoint is called with "+short(id.String()))
-			wr := calls(s, cRWWrite)
-			k, isNil, _ := nilFact(s, errRes(gc[0]))
-			switch {
-			case k && isNil:
-				nOK++
-				good := len(wr) == 1 && wr[0].Recv == rw && wr[0].Args[0] == res(gc[0], 0)
-				good = good && len(calls(s, cWriteHeader, "net/http.Error")) == 0 // implicit 200
-				r.Check(good, "C16.a", fnHGetCP+" | 200 with exactly the stored bytes", w.pos(s.RetPos), "success path does not write exactly GetCheckpoint's bytes with an (implicit) 200")
-			case k && !isNil:
-				he := calls(s, "net/http.Error")
-				good := len(wr) == 0 && len(he) == 1 && he[0].Args[0] == rw
-				if good {
-					code := he[0].Args[2]
-					good = code.Kind == "call" && code.Name == fnHForCode
-					if good {
-						sc := code.Args[2]
-						good = sc.Kind == "call" && sc.Name == cStatusCode && sc.Args[2] == errRes(gc[0])
-					}
-				}
-				r.Check(good, "C16.b", fnHGetCP+" | error status = httpForCode(status.Code(err)) of the same error", w.pos(s.RetPos), "error arm does not answer with the status derived from GetCheckpoint's own error")
-			default:
-				r.Fail("C16.a", fnHGetCP+" | error checked", w.pos(s.RetPos), "GetCheckpoint's error is not examined")
-			}
-		}
-		if nOK == 0 {
-			r.Undecided("C16.a", fnHGetCP, "", "no success path")
-		}
-	}
-	// ---- C16.b CODE-TABLE
-	if sums, _, ok := explore(w, r, "C16.b", fnHForCode, 4, 1); ok {
-		nf := codesConst(w, "NotFound")
-		fn := w.fn(fnHForCode)
-		c := paramN(fn, 0)
-		found := false
-		for _, s := range sums {
-			if k, v, _ := eqConstFact(s, c, nf); k && v {
-				found = true
-				st, _ := constInt(s.Rets[0])
-				r.Check(st == "404", "C16.b", fnHForCode+" | NotFound -> 404", w.pos(s.RetPos), "codes.NotFound is mapped to "+st)
-			} else if st, ok := constInt(s.Rets[0]); ok && st == "404" {
-				r.Fail("C16.b", fnHForCode+" | only NotFound -> 404", w.pos(s.RetPos), "a code other than NotFound is mapped to 404 (the client would take a failure for 'no checkpoint yet')")
-			} else if ok && st == "200" {
-				r.Fail("C16.b", fnHForCode+" | no error code maps to 200", w.pos(s.RetPos), "an error code is mapped to 200")
-			}
-		}
-		if !found {
-			r.Fail("C16.b", fnHForCode+" | NotFound -> 404", w.pos(fn.Pos()), "no case for codes.NotFound")
-		}
-	}
+	// ---- C16.a HANDLER-VERBATIM, C16.b CODE-TABLE, C16.d LOG-LIST on RegisterHandlers with every handler run in place
+	// (the router's HandleFunc/Handle as higher-order calls; helpers inlined; only the witness's methods stay calls)
+	ruleReadHandlers(w, r)
 	// ---- C16.c CLIENT-MAPPING
 	if sums, e, ok := explore(w, r, "C16.c", fnCGetLatest, 4, 1); ok {
 		n404, nOK := 0, 0
@@ -316,24 +257,6 @@ func ruleReadAPI(w *World, r *Run) {
 			r.Fail("C16.c", fnCGetLatest+" | 404 and 200 arms exist", "", fmt.Sprintf("404-arms=%d success-arms=%d", n404, nOK))
 		}
 	}
-	// ---- C16.d LOG-LIST
-	if sums, _, ok := exploreOpaque(w, r, "C16.d", fnHGetLogs, 4, 1, fnGetCheckpoint, fnGetLogs, fnHForCode); ok {
-		fn := w.fn(fnHGetLogs)
-		nOK := 0
-		for _, s := range sums {
-			gl := calls(s, fnGetLogs)
-			jm := calls(s, "encoding/json.Marshal")
-			wr := calls(s, cRWWrite)
-			if len(wr) == 1 {
-				nOK++
-				good := len(gl) == 1 && okBefore(s, gl[0], 0) && len(jm) == 1 && jm[0].Args[0] == res(gl[0], 0) && okBefore(s, jm[0], 0) && wr[0].Args[0] == res(jm[0], 0) && wr[0].Recv == paramN(fn, 0)
-				r.Check(good, "C16.d", fnHGetLogs+" | body = JSON of the witness's log list", w.pos(s.RetPos), "log list response is not json.Marshal(GetLogs()) written as is")
-			}
-		}
-		if nOK == 0 {
-			r.Undecided("C16.d", fnHGetLogs, "", "no success path")
-		}
-	}
 	ruleRouteAdmitsIDs(w, r, "C16.e")
 }
 
@@ -350,48 +273,34 @@ func ruleRouteAdmitsIDs(w *World, r *Run, rule string) {
 		r.Undecided(rule, "api.HTTPGetCheckpoint", "", "constant not found")
 		return
 	}
+	// the route registered for the checkpoint endpoint: the constant path handed to the router on some path of
+	// RegisterHandlers (helpers inlined), however it is put together (Sprintf, concatenation, a route table)
 	var pattern string
 	found := false
-	for _, b := range fn.Blocks {
-		for _, in := range b.Instrs {
-			call, ok := in.(*ssa.Call)
-			if !ok {
+	tmplC := constant.StringVal(tc.Val())
+	e := w.engine(4, 4)
+	sums := e.Explore(fn)
+	r.Analysed(fnHRegister, len(sums))
+	varRE := regexp.MustCompile(`\{[a-zA-Z_]+:[^{}]*\}`)
+	for i := range sums {
+		pieceCtx = &sums[i]
+		for _, ev := range sums[i].Events {
+			if ev.Kind != "call" || !strings.HasPrefix(ev.Callee, "(*github.com/gorilla/mux.Router).") || len(ev.Args) == 0 || ev.Args[0] == nil {
 				continue
 			}
-			sc := call.Call.StaticCallee()
-			if sc == nil || funcName(sc) != "fmt.Sprintf" {
+			pcs := mergeLits(strPieces(ev.Args[0]))
+			if len(pcs) != 1 || pcs[0].k != "lit" {
 				continue
 			}
-			f, ok := call.Call.Args[0].(*ssa.Const)
-			if !ok || f.Value == nil || !constant.Compare(f.Value, token.EQL, tc.Val()) {
-				continue
-			}
-			// varargs: new [1]any; store; slice
-			if sl, ok := call.Call.Args[1].(*ssa.Slice); ok {
-				if al, ok := sl.X.(*ssa.Alloc); ok {
-					for _, ref := range *al.Referrers() {
-						if ia, ok := ref.(*ssa.IndexAddr); ok {
-							for _, r2 := range *ia.Referrers() {
-								if st, ok := r2.(*ssa.Store); ok {
-									v := st.Val
-									if mi, ok := v.(*ssa.MakeInterface); ok {
-										v = mi.X
-									}
-									if c, ok := v.(*ssa.Const); ok && c.Value != nil && c.Value.Kind() == constant.String {
-										pattern = constant.StringVal(c.Value)
-										found = true
-									}
-								}
-							}
-						}
-					}
-				}
+			route := pcs[0].lit
+			if loc := varRE.FindStringIndex(route); loc != nil && route[:loc[0]]+"%s"+route[loc[1]:] == tmplC {
+				pattern, found = route[loc[0]:loc[1]], true
 			}
 		}
 	}
 	key := fnHRegister + " | route pattern admits every log ID the repository derives"
 	if !found {
-		r.Undecided(rule, key, w.pos(fn.Pos()), "route pattern constant not found")
+		r.Undecided(rule, key, w.pos(fn.Pos()), "no route registered with the router is api.HTTPGetCheckpoint with a {name:pattern} variable in place of its placeholder")
 		return
 	}
 	// gorilla/mux variable syntax {name:regexp}
@@ -476,5 +385,137 @@ func ruleDistributorGetsAllLogs(w *World, r *Run, rule string) {
 	ruleOneWitness(w, sub, "C17.b")
 	if relabelFrom(sub, r, "distributor gets every configured log", rule) == 0 {
 		r.Undecided(rule, fnMain+" | distributor gets every configured log", "", "no path of Main hands a log list to the distributor")
+	}
+}
+
+
+func ruleReadHandlers(w *World, r *Run) {
+	fn := w.fn(fnHRegister)
+	if fn == nil {
+		r.Undecided("C16.a", fnHRegister, "", "anchor not found")
+		return
+	}
+	tcC, _ := w.lookup(pAPI, "HTTPGetCheckpoint").(*types.Const)
+	tcL, _ := w.lookup(pAPI, "HTTPGetLogs").(*types.Const)
+	if tcC == nil || tcL == nil {
+		r.Undecided("C16.a", "api path constants", "", "HTTPGetCheckpoint/HTTPGetLogs not found")
+		return
+	}
+	tmplC, tmplL := constant.StringVal(tcC.Val()), constant.StringVal(tcL.Val())
+	e := w.engine(6, 4)
+	e.opaque[fnGetCheckpoint], e.opaque[fnGetLogs] = true, true
+	e.hof[cMuxHandleFunc], e.hof[cMuxHandle] = 1, 1
+	e.hofMethod[cMuxHandle] = "ServeHTTP"
+	sums := e.Explore(fn)
+	r.Analysed(fnHRegister+" ∘ handlers", len(sums))
+	srv := recvParam(fn)
+	nf := codesConst(w, "NotFound")
+	varRE := regexp.MustCompile(`\{[a-zA-Z_]+:[^{}]*\}`)
+	nCP, nLogs, nOK, nNF := 0, 0, 0, 0
+	for i := range sums {
+		s := sums[i]
+		if s.Trunc != "" {
+			r.Undecided("C16.a", fnHRegister, "", "path enumeration truncated: "+s.Trunc)
+			return
+		}
+		pieceCtx = &sums[i]
+		for _, reg := range calls(s, cMuxHandleFunc, cMuxHandle) {
+			pcs := mergeLits(strPieces(reg.Args[0]))
+			if len(pcs) != 1 || pcs[0].k != "lit" {
+				continue
+			}
+			route := pcs[0].lit
+			kind := ""
+			if loc := varRE.FindStringIndex(route); loc != nil && route[:loc[0]]+"%s"+route[loc[1]:] == tmplC {
+				kind = "checkpoint"
+			} else if route == tmplL {
+				kind = "logs"
+			}
+			if kind == "" {
+				continue
+			}
+			// the events of this handler's run
+			var g []Event
+			for _, ev := range s.Events {
+				if ev.HOFSeq == reg.Seq && ev.InHOF != "" {
+					g = append(g, ev)
+				}
+			}
+			gs := s
+			gs.Events = g
+			if len(g) == 0 {
+				r.Undecided("C16.a", fnHRegister+" | handler of "+route, w.pos(reg.Pos), "the handler registered for this route could not be run in place")
+				continue
+			}
+			wr := calls(gs, cRWWrite)
+			whs := calls(gs, cWriteHeader)
+			he := calls(gs, "net/http.Error")
+			switch kind {
+			case "checkpoint":
+				nCP++
+				hk := "GET checkpoint handler"
+				gc := calls(gs, fnGetCheckpoint)
+				if len(gc) != 1 || gc[0].Recv != fieldByType(srv, "*witness.Witness") {
+					r.Fail("C16.a", hk+" | reads through the witness", w.pos(reg.Pos), "handler does not call GetCheckpoint exactly once on the server's witness")
+					continue
+				}
+				id := gc[0].Args[0]
+				idOK := id.Kind == "lookup" && id.Args[0].Kind == "call" && id.Args[0].Name == "github.com/gorilla/mux.Vars" && id.Args[0].Args[2].Kind == "param" && typeStr(id.Args[0].Args[2].Typ) == "*http.Request" && id.Args[1].Kind == "const" && id.Args[1].Name == "\"logid\""
+				r.Check(idOK, "C16.a", hk+" | log ID = route variable of this request", w.pos(gc[0].Pos), "GetCheckpoint is called with "+short(id.String()))
+				k, isNil, _ := nilFact(s, errRes(gc[0]))
+				switch {
+				case k && isNil:
+					nOK++
+					good := len(wr) == 1 && wr[0].Recv != nil && wr[0].Recv.Kind == "param" && wr[0].Args[0] == res(gc[0], 0) && len(he) == 0
+					for _, h := range whs {
+						if c, _ := constInt(h.Args[0]); c != "200" {
+							good = false
+						}
+					}
+					r.Check(good, "C16.a", hk+" | 200 with exactly the stored bytes", w.pos(s.RetPos), "success path does not write exactly GetCheckpoint's bytes with a 200")
+				case k && !isNil:
+					code := ""
+					switch {
+					case len(he) == 1 && len(whs) == 0:
+						code, _ = constInt(he[0].Args[2])
+					case len(whs) == 1 && len(he) == 0:
+						code, _ = constInt(whs[0].Args[0])
+					}
+					for _, x := range wr {
+						if x.Args[0] == res(gc[0], 0) {
+							code = "body" // checkpoint bytes on an error arm
+						}
+					}
+					kn, isNF, _ := notFoundFact(w, s, errRes(gc[0]))
+					_ = nf
+					switch {
+					case kn && isNF:
+						nNF++
+						r.Check(code == "404", "C16.b", hk+" | NotFound from the witness -> 404", w.pos(s.RetPos), "a NotFound error of GetCheckpoint is answered "+code)
+					default:
+						r.Check(code != "" && code != "404" && code != "200" && code != "body", "C16.b", hk+" | other errors are neither 404 nor 200", w.pos(s.RetPos), "an error of GetCheckpoint that is not NotFound is answered "+code+" (the client would take it for 'no checkpoint yet' or for success)")
+					}
+				default:
+					r.Fail("C16.a", hk+" | error checked", w.pos(s.RetPos), "GetCheckpoint's error is not examined")
+				}
+			case "logs":
+				gl := calls(gs, fnGetLogs)
+				jm := calls(gs, "encoding/json.Marshal")
+				if len(wr) == 1 && len(gl) == 1 && okBefore(s, gl[0], 0) {
+					nLogs++
+					good := len(jm) == 1 && jm[0].Args[0] == res(gl[0], 0) && okBefore(s, jm[0], 0) && wr[0].Args[0] == res(jm[0], 0)
+					r.Check(good, "C16.d", "GET logs handler | body = JSON of the witness's log list", w.pos(s.RetPos), "log list response is not json.Marshal(GetLogs()) written as is")
+				}
+			}
+		}
+	}
+	if nCP == 0 || nOK == 0 {
+		r.Undecided("C16.a", fnHRegister+" | checkpoint route", "", fmt.Sprintf("checkpoint handler runs=%d success paths=%d", nCP, nOK))
+	}
+	if nNF == 0 {
+		r.Fail("C16.b", "GET checkpoint handler | NotFound from the witness -> 404", "", "no path answers a NotFound error of GetCheckpoint")
+	}
+	if nLogs == 0 {
+		r.Undecided("C16.d", fnHRegister+" | logs route", "", "no success path of the log-list handler")
 	}
 }
